@@ -1758,7 +1758,8 @@ def gen_restore_stmt(node, code, codegen):
     if target:
         label_index = code.get_data_label_index(target)
     else:
-        label_index = -1
+        # rewind to the very first DATA item
+        label_index = 0
 
     code.add(
         ('push%', label_index),
